@@ -116,6 +116,10 @@ def _consume(gen, markers=()):
                 t = t + " " + repr(r.get_metadata())
                 expanded = expanded or any(m in t for m in markers)
             del t
+            it = getattr(r, "iterate_images", None)
+            if it is not None:
+                for img in it():
+                    del img
         except CpuBudget:
             raise
         except Exception:  # the accessors are other properties' business
@@ -299,9 +303,9 @@ def _limits_case(sc, tmpdir):
         elif kind == "members":
             import tarfile
             import zipfile
-            lim = sc["configure"]
-            if lim:
-                _need(AX, "configure_archive_extraction")(max_memory_size=lim)
+            # the history of configuration calls of the scenario, through the public function only
+            for kw in sc["calls"]:
+                _need(AX, "configure_archive_extraction")(**kw)
             cfg = _need(AX, "_config")
             eff = int(cfg.max_memory_size)
             data = Path(sc["archive_file"]).read_bytes()
@@ -363,7 +367,8 @@ def _limits_case(sc, tmpdir):
                 def wdec(self, folder, *a, **k):
                     out = dec(self, folder, *a, **k)
                     if not state["init"]:
-                        ev.append({"a": "DecompressFolder", "f": 1, "n": len(out)})
+                        fidx = next((i for i, x in enumerate(getattr(self, "_folders", []), start=1) if x is folder), 1)
+                        ev.append({"a": "DecompressFolder", "f": fidx, "n": len(out)})
                     return out
                 SZ.SevenZipReader._decompress_folder = wdec
 
